@@ -11,19 +11,20 @@ import (
 
 // Op is one public-API call (or storage event) in a history.
 type Op struct {
-	Op   string   `json:"op"`
-	H    string   `json:"h"`    // handle acted on
-	I    int      `json:"i"`    // index / range start
-	J    int      `json:"j"`    // range end
-	E    ElemSpec `json:"e"`    // element / value
-	K    ElemSpec `json:"k"`    // key (maps)
-	Ti   int      `json:"ti"`   // type info value
-	Rej  bool     `json:"rej"`  // a request the model expects to be rejected (C18)
-	Mode string   `json:"mode"` // commit kind
-	W    int      `json:"wk"`   // workers
-	Fail []int    `json:"fail"` // failing ledger write calls (1-based within the op)
-	New  string   `json:"new"`  // name for a handle created by the op
-	Keep bool     `json:"keep"` // a removed / overwritten container is kept by the caller (becomes a detached root) instead of disposed
+	Op    string   `json:"op"`
+	H     string   `json:"h"`     // handle acted on
+	I     int      `json:"i"`     // index / range start
+	J     int      `json:"j"`     // range end
+	E     ElemSpec `json:"e"`     // element / value
+	K     ElemSpec `json:"k"`     // key (maps)
+	Ti    int      `json:"ti"`    // type info value
+	Rej   bool     `json:"rej"`   // a request the model expects to be rejected (C18)
+	Pairs [][2]int `json:"pairs"` // n.itermut: <<child container number, id of the element appended to it>>
+	Mode  string   `json:"mode"`  // commit kind
+	W     int      `json:"wk"`    // workers
+	Fail  []int    `json:"fail"`  // failing ledger write calls (1-based within the op)
+	New   string   `json:"new"`   // name for a handle created by the op
+	Keep  bool     `json:"keep"`  // a removed / overwritten container is kept by the caller (becomes a detached root) instead of disposed
 }
 
 type Res struct {
@@ -68,6 +69,7 @@ type Rec struct {
 	Regs  []RegObs  `json:"regs"`  // commit / run-end events: every register (canonical id, short hash, length)
 	Known bool      `json:"known"` // Load: cold holds the roots observed from the registers at the last successful commit
 	Probe ProbeObs  `json:"probe"` // probe events (iterators, bulk build, copy)
+	Pairs [][2]int  `json:"pairs"` // n.itermut
 }
 
 type CallObs struct {
@@ -175,7 +177,10 @@ func (w *World) rec(t int, ev string, op Op, res Res) Rec {
 		}
 	}
 	r := Rec{T: t, Ev: ev, Op: op.Op, Hv: hv, Keep: op.Keep, H: op.H, I: op.I, J: op.J, E: op.E, K: op.K, Kd: kd, Ti: op.Ti, Res: res, Roots: roots, St: st, Cfg: w.cfg(),
-		Mode: op.Mode, Calls: []CallObs{}, Cold: []RootObs{}, Regs: []RegObs{}, Probe: emptyProbe()}
+		Mode: op.Mode, Calls: []CallObs{}, Cold: []RootObs{}, Regs: []RegObs{}, Probe: emptyProbe(), Pairs: op.Pairs}
+	if r.Pairs == nil {
+		r.Pairs = [][2]int{}
+	}
 	if w.lastCalls != nil {
 		r.Calls = w.lastCalls
 		w.lastCalls = nil
@@ -885,6 +890,53 @@ func (w *World) ExecNested(op *Op) (string, Res) {
 			})
 		}
 		return "NIter", fin(err, r)
+	case "n.itermut":
+		// mutable iteration over the parent; every child ARRAY met is mutated inside the callback through the value the iterator
+		// handed out (which becomes the live handle of that child)
+		idOf := map[string]int{}
+		vidOfName := map[string]int{}
+		for vid, name := range w.NameOfVid {
+			vidOfName[name] = vid
+		}
+		for i, p := range op.Pairs {
+			idOf[cname(p[0])] = p[1]
+			op.Pairs[i][0] = vidOfName[cname(p[0])] // recorded by value id, which is how the trace specification names containers
+		}
+		var err error
+		r := Res{}
+		visit := func(v atree.Value) error {
+			a := w.absOfValue(v)
+			if a.C != "A" && a.C != "M" {
+				return nil
+			}
+			name, ok := w.NameOfVid[a.V]
+			if !ok {
+				return nil
+			}
+			w.adopt(v, name, op.H)
+			if id, ok := idOf[name]; ok {
+				return w.H[name].Arr.Append(mkValue(ElemSpec{ID: id, Sz: op.E.Sz}))
+			}
+			return nil
+		}
+		if h.Kind == "A" {
+			err = h.Arr.Iterate(func(v atree.Value) (bool, error) {
+				r.Seq = append(r.Seq, w.absOfValue(v).V)
+				if e := visit(v); e != nil {
+					return false, e
+				}
+				return true, nil
+			})
+		} else {
+			err = h.Map.Iterate(testutils.CompareValue, testutils.GetHashInput, func(k, v atree.Value) (bool, error) {
+				r.Seq = append(r.Seq, w.absOfValue(k).V, w.absOfValue(v).V)
+				if e := visit(v); e != nil {
+					return false, e
+				}
+				return true, nil
+			})
+		}
+		return "NIterMut", fin(err, r)
 	case "n.settype":
 		var err error
 		var ti atree.TypeInfo = testutils.NewSimpleTypeInfo(uint64(op.Ti))
